@@ -1,6 +1,7 @@
 package main
 
 import (
+	"os"
 	"fmt"
 	"go/types"
 	"sort"
@@ -120,11 +121,14 @@ func (e *Engine) verifyFunc(key string) (u *Unit, err error) {
 	u.curReach = mkBool(true)
 	u.frameInit(ct, env, key)
 	// vacuity guard: the preconditions are satisfiable
-	cov := &Obligation{Name: "cover." + key + ".requires", Kind: "cover", Goal: mkBool(false), NItems: len(u.items), Fn: key, Cover: true,
+	cov := &Obligation{Name: "cover." + key + ".requires", Kind: "cover", Goal: mkBool(false), NItems: len(u.items), Fn: key, Cover: true, Blk: u.curBlk,
 		Src: "preconditions and parameter invariants are satisfiable"}
 	u.obls = append(u.obls, cov)
 
+	u.topFn = fn
+	u.curBlk = -1
 	res, outSt, retc := u.execFunc(fn, args, bindings, st, mkBool(true), true, ct)
+	u.markBlock(-2)
 	if ct != nil && len(ct.Ensures) > 0 {
 		if retc.S == "false" {
 			return u, nil
@@ -156,7 +160,7 @@ func (e *Engine) verifyFunc(key string) (u *Unit, err error) {
 	}
 	// vacuity guard: some return is reachable
 	if retc.S != "false" {
-		cov2 := &Obligation{Name: "cover." + key + ".return", Kind: "cover", Goal: not(retc), NItems: len(u.items), Fn: key, Cover: true,
+		cov2 := &Obligation{Name: "cover." + key + ".return", Kind: "cover", Goal: not(retc), NItems: len(u.items), Fn: key, Cover: true, Blk: u.curBlk,
 			Src: "a normal return is reachable under the preconditions"}
 		u.obls = append(u.obls, cov2)
 	}
@@ -264,7 +268,24 @@ func (u *Unit) script(o *Obligation, wantModel bool) string {
 		}
 	}
 	sb.WriteString(u.specPreamble(nil))
-	for _, it := range u.items[:o.NItems] {
+	// assertions made in blocks from which the obligation's block cannot be reached are left out (they are
+	// guarded by the reach conditions of those blocks and cannot contribute; leaving them out only weakens
+	// the hypotheses). Declarations and definitions are always kept.
+	var anc map[int]bool
+	slice := os.Getenv("GOVC_NOSLICE") == "" && u.topFn != nil && o.Blk >= 0
+	if slice {
+		anc = u.ancestors(o.Blk)
+	}
+	mi := 0
+	cur := -1
+	for i, it := range u.items[:o.NItems] {
+		for mi < len(u.blkMarks) && u.blkMarks[mi].at <= i {
+			cur = u.blkMarks[mi].blk
+			mi++
+		}
+		if slice && cur >= 0 && !anc[cur] && strings.HasPrefix(it, "(assert") {
+			continue
+		}
 		sb.WriteString(it)
 		sb.WriteString("\n")
 	}
